@@ -114,7 +114,11 @@ def make_object(name, rng):
     mono = P(rng, "none", "decreasing", 1)
     cyc = bool(mono == "none" and rng.rand() < .3)
     kt = P(rng, "fixed", "fixed", "learned_interior")
-    lay = tfl.layers.PWLCalibration(P(rng, [0.0, 1.0, 3.0], np.array([0.0, 1.0, 3.0]), (0.0, 0.5, 1.0, 4.0)), units=units,
+    # keypoints as list / tuple / numpy array, with values float32 cannot represent (0.1 steps, timestamps): the rebuilt
+    # layer must see the very same numbers
+    kps = P(rng, [0.0, 1.0, 3.0], np.array([0.0, 1.0, 3.0]), (0.0, 0.5, 1.0, 4.0), np.linspace(0.0, 1.0, 11),
+            np.array([1.6e9, 1.6e9 + 300.0, 1.6e9 + 1000.0, 1.6e9 + 2000.0]), [0.1, 0.3, 0.7])
+    lay = tfl.layers.PWLCalibration(kps, units=units,
                                     output_min=P(rng, None, 0.0), output_max=P(rng, None, 2.0),
                                     clamp_min=bool(mono != "none" and rng.rand() < .5), clamp_max=bool(mono != "none" and rng.rand() < .5),
                                     monotonicity=mono, convexity=P(rng, "none", "convex", -1) if (not cyc and kt == "fixed") else "none", is_cyclic=cyc,
@@ -123,7 +127,8 @@ def make_object(name, rng):
                                     impute_missing=True, missing_input_value=P(rng, None, -1.0), missing_output_value=P(rng, None, 0.5),
                                     num_projection_iterations=P(rng, 8, 3), split_outputs=P(rng, False, True),
                                     input_keypoints_type=kt)
-    x = rng.uniform(-1, 4, size=(5, 1)).astype(np.float32)
+    k0, k1 = float(np.asarray(kps)[0]), float(np.asarray(kps)[-1])
+    x = rng.uniform(k0 - 0.3 * (k1 - k0), k1 + 0.3 * (k1 - k0), size=(5, 1)).astype(np.float32)
     return lay, x
   if name == "UniformOutputInitializer":
     return pl.UniformOutputInitializer(0.0, 1.0, P(rng, "decreasing", "none", 1), keypoints=P(rng, None, [0.0, 1.0, 4.0])), None
@@ -472,6 +477,22 @@ def _run_model(ctx, case, st):
       path = d + {"keras": "/m.keras", "h5": "/m.h5", "tf": "/sm"}[fmt]
       model.save(path) if fmt != "tf" else model.save(path, save_format="tf")
       m2 = keras.models.load_model(path, custom_objects=co)
+    # config round trip of the whole model: second-generation config equal, same regularization losses on the same weights
+    if fmt != "tf":
+      try:
+        cfg1 = model.get_config()
+        m3 = type(model).from_config(cfg1, custom_objects=co)
+        cfg3 = m3.get_config()
+        n1_, n3_ = _norm(cfg1), _norm(cfg3)
+        ctx.check("model/config-second-generation-equal", n1_ == n3_,
+                  "%s model: get_config() of the model rebuilt from its config differs (e.g. lists grown by the builder)" % desc["kind"], info=info)
+        m3.set_weights(model.get_weights())
+        l1 = float(sum(np.asarray(l) for l in model.losses)) if model.losses else 0.0
+        l3 = float(sum(np.asarray(l) for l in m3.losses)) if m3.losses else 0.0
+        ctx.check("model/rebuilt-same-regularization-loss", abs(l1 - l3) <= 1e-6 * max(1.0, abs(l1)),
+                  "%s model: regularization losses differ after rebuilding from the config with the same weights: %.9g vs %.9g" % (desc["kind"], l1, l3), info=info)
+      except Exception as e2:
+        ctx.check("model/config-second-generation-equal", False, "%s model: from_config(get_config()) raised %s: %s" % (desc["kind"], type(e2).__name__, str(e2)[:200]), info=info)
     y2 = np.asarray(m2.predict(X, verbose=0))
     e = float(np.abs(y2 - y).max())
     ctx.check("model/save-load-same-outputs", e <= 1e-6 * core.scale_of(y), "%s model reloaded from %s differs by %.3g" % (desc["kind"], fmt, e), info=info)
